@@ -19,12 +19,15 @@ PxDevs  == {"0", "+1%", "-1%", "+50%", "-50%"}
 Supplies== {"small", "mid", "large"}
 ExitSz  == {"one", "dust", "1%", "half", "allbut1", "all", "over"}
 JoinSz  == {"one", "dust", "tiny", "1%", "30%", "x10"}
+\* the per-block pool snapshot handed to the pool functions: the live pool (first operation of a block) or the pool as it
+\* was before earlier operations of the same block made it larger / smaller
+Snaps   == {"live", "smaller", "larger"}
 
 SwapCasesBal == [op : {"swapIn", "swapOut"}, kind : {"bal"}, mag : Mags, ratio : Ratios, w : Weights, fee : Fees, size : Sizes, dir : Dirs]
 SwapCasesOra == [op : {"swapIn", "swapOut"}, kind : {"oracle"}, mag : Mags \ {"e0", "e3"}, ratio : {"1:1", "1:1e3"}, w : {<<1, 1>>}, fee : {"0", "0.003", "0.02"},
-                 size : Sizes, dir : Dirs, ext : Exts, pxdev : PxDevs]
+                 size : Sizes, dir : Dirs, ext : Exts, pxdev : PxDevs, snap : Snaps]
 JoinCases    == [op : {"joinAll", "joinSingle"}, kind : {"bal", "oracle"}, mag : Mags \ {"e0"}, ratio : {"1:1", "1:1e3", "1e3:1"}, w : Weights,
-                 fee : {"0", "0.003", "0.02"}, size : JoinSz, dir : Dirs, supply : Supplies]
+                 fee : {"0", "0.003", "0.02"}, size : JoinSz, dir : Dirs, supply : Supplies, snap : {"live", "smaller"}]
 ExitCases    == [op : {"exit", "exitSingle"}, kind : {"bal", "oracle"}, mag : Mags \ {"e0"}, ratio : {"1:1", "1:1e3", "1e3:1"}, w : {<<1, 1>>, <<1, 2>>, <<3, 2>>},
                  fee : {"0", "0.003"}, size : ExitSz, dir : Dirs, supply : Supplies]
 
